@@ -66,6 +66,9 @@ def declare_runloop(E, expected_packet_type="const:()"):
                        "OSError": {"when": "True", "ghost": {"send_failed": "True"}},
                        "SSHException": {"when": "True", "ghost": {"send_failed": "True"}}}, modifies=[])
     E.declare_ghost(send_failed="bool")
+    # the gated send (Transport._send_user_message: sent now, or held back until NEWKEYS on the transport thread) counts as
+    # handed over for sending, like the ungated one
+    E.contracts[T + "_send_user_message"] = dict(E.contracts[T + "_send_message"])
 
 
 UNHANDLED = ("ptype != 2 and ptype != 1 and ptype != 4"          # IGNORE, DISCONNECT, DEBUG are handled inline
@@ -208,8 +211,11 @@ def declare_c18(E):
     RA = {"EOFError": "True", "OSError": "True", "SSHException": "True"}
     E.contract(T + "_send_message", params={"data": "obj:Message"}, returns="none",
                ghost={"sent_count": "ghost('sent_count') + 1", "last_sent": "data.packet.getvalue()"}, raises=dict(RA), modifies=[])
+    # (the gate: the message is sent now, or - on the transport thread during a key exchange - right after NEWKEYS; either
+    #  way it has been handed over for sending, which is what the reply clauses below count)
     E.contract(T + "_send_user_message", params={"data": "obj:Message"}, returns="none",
-               ghost={"user_sent_count": "ghost('user_sent_count') + 1", "user_sent": "data.packet.getvalue()"},
+               ghost={"user_sent_count": "ghost('user_sent_count') + 1", "user_sent": "data.packet.getvalue()",
+                      "sent_count": "ghost('sent_count') + 1", "last_sent": "data.packet.getvalue()"},
                raises=dict(RA), modifies=[])
     for n in ("check_port_forward_request", "cancel_port_forward_request", "check_global_request",
               "check_channel_direct_tcpip_request", "check_channel_request", "check_channel_pty_request",
@@ -361,8 +367,9 @@ def declare_c38(E):
     from contracts import specs
     declare_c15(E)
     # a message handed to the packet layer must have a type byte (send_message reads data[0])
-    c = E.contracts[T + "_send_message"]
-    c["requires"] = {"message_has_a_type_byte": "len(data.packet.getvalue()) >= 1"}
+    for fn in ("_send_message", "_send_user_message"):
+        if T + fn in E.contracts:
+            E.contracts[T + fn] = dict(E.contracts[T + fn], requires={"message_has_a_type_byte": "len(data.packet.getvalue()) >= 1"})
     c = E.contracts[T + "_ensure_authed"]
     c["ensures"] = dict(c["ensures"], refusal_is_a_sendable_message="(len(result.packet.getvalue()) >= 1) if notnone(result) else True")
     E.contract(RUN_ITER, params={"self": "obj:Transport"},
